@@ -385,6 +385,28 @@ def run(F, S, R, tier):
             R.bad("order/uncle-commitment/BlockUnclesVerifier", "BlockUnclesVerifier binds received uncles by header hash only: an uncle with other proposals rebuilds an invalid block with a valid block's hash", [bu.where()])
     R.guard("order/uncle-commitment", uncle_commitment)
 
+    # the uncles a peer sends are in the order they were asked for: the k-th requested uncle is reply[k], not reply[slot in the block]
+    # (round-2 seed C16-seed3 indexed the reply by the enumerate() slot)
+    def reply_position():
+        rb = F.need("ckb_sync::relayer::Relayer::reconstruct_block")
+        hits = []
+        for x in K.with_nested(rb):
+            for c in x.calls:
+                if re.search(r"::get$", c.callee) and len(c.args) > 1 and K.src_match(x.operand_sources(c.args[0]), [r"param:received_uncles$|param:6$"]):
+                    hits.append((x, c))
+        R.sites += len(hits)
+        if not hits:
+            R.bad("prov/uncle-reply-position/anchor-lost", "the lookup into the received uncles not found in reconstruct_block", [rb.where()])
+            return
+        for x, c in hits:
+            srcs = x.operand_sources(c.args[1])
+            if any(re.search(r"Enumerate<.*>.*::next$|^idx:#?0$", y) for y in srcs) and not any(y.startswith("lit:") for y in srcs):
+                R.bad("prov/uncle-reply-position", "the received uncles are indexed by the uncle's slot in the block (enumerate index), not by a counter of the requested ones", [c.where()])
+            elif any(y == "lit:1" for y in srcs) and any(y == "lit:0" for y in srcs):
+                R.ok("prov/uncle-reply-position", "the received uncles are consumed through a counter that starts at 0 and advances by one per requested uncle", [c.where()])
+            else:
+                R.bad("prov/uncle-reply-position", "the index into the received uncles is not a 0-based counter advanced by one", [c.where()])
+    R.guard("prov/uncle-reply-position", reply_position)
 
 def _mentions(rv, local):
     k = rv.get("k")
